@@ -233,7 +233,7 @@ Definition poll_write (c : cfg) (s : state) (d : B) : state * pollres :=
           | TErr s4 => (set_poisoned s4, PError)
           | TOk s4 => (s4, if k =? 0 then PPending else PReady k)
           end
-      | _ => (s2, PPanicked)
+      | _ => (set_poisoned s2, PPanicked)      (* the writer unwinds; like an error, only drop may follow *)
       end
   end.
 
@@ -503,6 +503,3 @@ Definition chk_parts (i : cfg_code * N) (o : option N * list N) : bool :=
   | Some (p, l) => option_eqb N.eqb p (fst o) && list_eqb N.eqb l (snd o)
   | None => false
   end.
-
-(* the capacity rule alone *)
-Definition chk_capacity (i : cfg_code * N) (o : N) : bool := capof (decode_cfg (fst i)) (snd i) =? o.
